@@ -257,4 +257,21 @@ CHECKS = {
         assumptions=['the reference server is conformant: it follows core.telegram.org/mtproto/auth_key with fixed-width values (self-consistent: it completes with the fixed client)',
                      'DH group = Telegram\'s 2048-bit safe prime', 'a connect that the server side had to abandon (recorded reason) is judged by that reason, never by elapsed time'],
     ),
+    'C07': dict(
+        pkg='./c07', test='TestC07', level='fault_enumeration', helpers={'vdriver': './cmd/vdriver'},
+        quick=dict(shards=16, checks=3, budget_s=900),
+        thorough=dict(shards=16, checks=150, budget_s=3400),
+        level_text=('An otherwise conformant key exchange (real client in a fresh process, reference server) is run with exactly one fault of the statement\'s list: nonce / '
+                    'server_nonce echoed wrongly in resPQ, server_DH_params_ok, the decrypted server_DH_inner_data and dh_gen_ok (bit flip, random value, the other nonce, '
+                    'zero); fingerprint list without the configured key; encrypted DH answer whose SHA-1 prefix does not match (prefix or content bit flipped); wrong '
+                    'new_nonce_hash (flip, hash2, hash3, random); wrong-kind replies (server_DH_params_fail, dh_gen_retry, dh_gen_fail). The catalogue is enumerated; '
+                    'thorough covers every bit position of every field up to 160 bits.'),
+        technique='fault enumeration over a generated baseline exchange against a scripted reference server (rapid + enumerated fault catalogue)',
+        rule=('case = (baseline exchange, fault = step x field x corruption x bit position). Every executed fault is non-trivial; distinct by hash of the scenario. '
+              'Oracle: CreateConnection returns a non-nil error (a panic is not an error return), no session file afterwards, no encrypted frame reaches the server, child alive.'),
+        must_hit=['step:resPQ', 'step:dhParams', 'step:dhInner', 'step:dhGen', 'fault:resPQ.fingerprints:empty', 'fault:dhInner.sha1:prefix-flip', 'fault:dhInner.sha1:content-flip',
+                  'fault:dhGen.new_nonce_hash:flip', 'fault:dhGen.kind:gen_retry', 'fault:dhGen.kind:gen_fail', 'fault:dhParams.kind:params_fail', 'verdict:ok'],
+        fold={'fault:': ('fault_classes_covered', 41)},
+        assumptions=['not generated because the statement does not list them: a different server_nonce in resPQ (the server chooses it), corrupted pq, g, dh_prime, g_a, server_time'],
+    ),
 }
